@@ -45,7 +45,7 @@ var fullAlphabet = []world.Template{
 func FamiliesC03(tier string) []world.Family {
 	l2Len, fieldsLen, fullLen := 6, 3, 6
 	if tier == "thorough" {
-		l2Len, fieldsLen, fullLen = 8, 4, 7
+		l2Len, fieldsLen, fullLen = 7, 4, 7
 	}
 	return []world.Family{
 		{ // every L2 history (bridges, claims of both origins, block boundaries, empty blocks) after a fixed L1 prelude
@@ -72,7 +72,6 @@ func FamiliesC03(tier string) []world.Family {
 func OptionsC03(tier string) Options {
 	o := Options{MaxRetries: 1, SizeVariants: []uint{0, 1}, PrevLERNilToo: true}
 	if tier == "thorough" {
-		o.MaxRetries = 2
 		o.SizeVariants = []uint{0, 1, 300} // 300 bytes: room for about two bridge exits, no claim
 	}
 	return o
